@@ -8,7 +8,8 @@ Driver for C18 (package cache).  Requests:
            `p<c>.<k>` Get, loader panics | `x<c>` Release | `r` Rotate | `c` Cleanup | `z` CleanEmptyGenerations |
            `b` ReleaseBuckets
   `trace <sizeLimit> <entrySize> <label>;...`       one label per critical section (`SV.Cache.run`)
-      label = `n` | `G<t>.<c>.<k>` | `W<t>` | `F<t>.<v>.<sz>` | `E<t>` | `P<t>` | `x<c>` | `r` | `cb` | `ck` | `z` | `b`
+      label = `n` | `G<t>.<c>.<k>` | `W<t>` | `F<t>.<v>.<sz>` | `E<t>` | `P<t>` | `x<c>` | `r` | `cb` | `ck` | `z` | `b` |
+              `C` (one whole Cleanup call: `cb` followed by one `ck` per bucket)
   `rb <flags as 0/1 per bucket>` / `rbold <flags>`  ReleaseBuckets (repaired / historical swap loop) on buckets 0..n-1
 
 Response of seq/trace: `ok <outs of step 1>@<getSize>;... | size=<getSize> live=<liveSum> buckets=<ids> gens=<sizes> caches=<..>`
@@ -103,12 +104,16 @@ def goSeq (cfg : Cfg) : St → List Op → Nat → List String → String
     | none => s!"err step {i}"
     | some (s1, out) => goSeq cfg s1 os (i + 1) (s!"{fmtOuts out}@{getSize s1}" :: acc)
 
-def goTrace (cfg : Cfg) : St → List Label → Nat → List String → String
+def goTrace (cfg : Cfg) : St → List (Option Label) → Nat → List String → String
   | s, [], _, acc => s!"ok {fmtList id acc.reverse ";"} | {fmtState s}"
-  | s, l :: ls, i, acc =>
+  | s, some l :: ls, i, acc =>
     match Cache.step cfg s l with
     | none => s!"err step {i}"
     | some (s1, out) => goTrace cfg s1 ls (i + 1) (s!"{fmtOut out}@{getSize s1}" :: acc)
+  | s, none :: ls, i, acc =>
+    match Cache.run cfg s (cleanupLabels cfg s) with
+    | none => s!"err step {i}"
+    | some (s1, outs) => goTrace cfg s1 ls (i + 1) (s!"{fmtOuts outs}@{getSize s1}" :: acc)
 
 def flags? (s : String) : Option (List Bool) :=
   if s = "-" then some [] else s.toList.mapM fun c => if c = '1' then some true else if c = '0' then some false else none
@@ -120,7 +125,7 @@ def step (line : String) : String :=
     | some lim, some es, some ops => goSeq ⟨lim, es⟩ init ops 0 []
     | _, _, _ => "bad-op"
   | ["trace", lim, es, ls] =>
-    match lim.toNat?, es.toNat?, (splitList ls ";").mapM parseLabel with
+    match lim.toNat?, es.toNat?, (splitList ls ";").mapM (fun x => if x = "C" then some none else (parseLabel x).map some) with
     | some lim, some es, some ls => goTrace ⟨lim, es⟩ init ls 0 []
     | _, _, _ => "bad-op"
   | ["rb", fl] =>
